@@ -31,6 +31,14 @@ type Ctx struct {
 
 func NewCtx(p *load.Program, tier string, run *report.Run) *Ctx {
 	declResolver = func(fn *types.Func) *load.FuncInfo { return p.Decls[fn] }
+	goInfo = func(id *ast.Ident) types.Object {
+		for _, pk := range p.Pkgs {
+			if o := pk.TypesInfo.Uses[id]; o != nil {
+				return o
+			}
+		}
+		return nil
+	}
 	dtab.Resolver = func(fn *types.Func) (*ast.FuncDecl, *types.Info) {
 		if fi := p.Decls[fn]; fi != nil {
 			return fi.Decl, fi.Pkg.TypesInfo
